@@ -109,6 +109,25 @@ CHECKS.update({
         'found by the generated obligation) repaired by fix commits; networkx is not trusted; np.exp weights by tolerance 1e-9',
         '4/C10',
     ),
+    'C02': (
+        'Theorems: the model\'s periodic distance is the exact minimum over ALL lattice images for every non-degenerate cell (Geometry.minImageSqCert_spec, '
+        'metric_posdef, certificate theorem); assign returns the first site whose sphere contains the atom and -1 iff none does; an atom inside two spheres of '
+        'radius r forces the centres < 2r apart, so r <= d_min/2 - 0.005 (automatic radius) makes the assignment unique; inner fraction <= 1 + uniqueness => inner '
+        'site in {none, outer site}; per-label remap. Tie: states / inner_states of transitions_between_sites vs the model on pool lattices in four orientations, '
+        'float / dict / automatic radius, atoms placed through periodic images, 1e-3 A margin.',
+        'known finding D16 (MDAnalysis PeriodicKDTree misses neighbours on non-reduced strongly skewed cells) classified by cell class + "no site" outcome; defects D2 '
+        '(orientation) and D3 (per-label remap) repaired by fix commits; KD-tree numerics (float32 box) are trusted within the margin; overlapping explicit radii are outside the reading',
+        '4/C02',
+    ),
+    'C11': (
+        'Theorems (GProofs/C11.lean): digitize(right=True) puts a distance in the least bin k with d <= k*res (overflow iff none); every (floating atom, atom) pair of a '
+        'frame contributes exactly one (state, symbol, bin) cell (frameContribs_length/mem): the per-state distributions partition the pair counts; state codes injective; '
+        'label lookup = label of the site itself; histogram bin convention; raw pair counts symmetric in the two species. Tie: every y array of radial_distribution '
+        'per (state, symbol) exactly vs brute force over certified minimum-image distances with alternating labels; between-species histogram x shell normalisation.',
+        'defect D8 (labels off by one) repaired by a fix commit; "~>" states (atom before its first / after its last site) are pooled: their naming is not fixed by the '
+        'statement; distances within 1e-9 of a bin edge (not exactly on it) are skipped; pymatgen distances trusted (cross-checked in C12)',
+        '4/C11',
+    ),
     'C13': (
         'Theorems (GProofs/C13.lean) on the list-level model that follows the code path (selection through filter = through wrapped '
         'positions): the corrected trajectory keeps the original base positions and first frame; under SmallSteps and a non-empty '
